@@ -537,7 +537,7 @@ func randomHistory(c *core.Ctx, t *core.Trace, gen string, cas int, k kind, nops
 		}
 		if i%16 == 15 && !s.dead {
 			s.toArray("Proj")
-			s.heldEvAll()
+			s.heldEvOne(r)
 		}
 	}
 	if !s.dead {
@@ -557,7 +557,7 @@ func growHistory(c *core.Ctx, t *core.Trace, gen string, cas int, k kind, ctor s
 	for i := 0; i < n && !s.dead; i++ {
 		s.add(p[r.Intn(len(p))])
 		size := s.l.size()
-		if i < 70 || r.Intn(16) == 0 { // the array handed out at this size, kept across the next calls
+		if i < 70 || r.Intn(32) == 0 { // the array handed out at this size, kept across the next calls
 			switch r.Intn(6) {
 			case 0:
 				s.toArray("ToArray")
@@ -576,7 +576,7 @@ func growHistory(c *core.Ctx, t *core.Trace, gen string, cas int, k kind, ctor s
 		}
 		if i%64 == 63 && !s.dead {
 			s.toArray("Proj")
-			s.heldEvAll()
+			s.heldEvOne(r)
 		}
 	}
 	if !s.dead {
@@ -667,7 +667,12 @@ func sortVals(k kind, vs []val, asc bool) {
 
 func Run(c *core.Ctx) error {
 	c.Rule = "C13: random call histories on each of the five typed lists (every Add*/Set*/Get*, AddAll, AddAllArray, ToArray, Size, Write+Read, Sorting, SortingAnyList, Filtering; seven constructor shapes; extreme / duplicate / NaN-free / empty-string element pools), one-by-one growth histories probing the first slot beyond size, sort histories of 0..2000 elements with heavy duplication sorted both ways alone and with children of every kind in all four direction combinations, aliasing histories (each typed list filled exactly to / short of / beyond its capacity by every constructor and growth path, or obtained from Filtering / Read / as the AddAll argument; the caller keeps every returned or passed array, index slice and list, writes into them and reads them again after every call), random LinkedList histories, plus every transition of the complete small-scope state graphs of the model (typed and linked, dumped by TLC) replayed on every real type; a history is non-trivial if it recorded more than 3 events; distinct by kind, constructor, profile and first 12 calls"
-	t := c.Trace("c13_lists", "Trace_TypedList")
+	// several trace files: they are validated in parallel
+	t := c.Trace("c13_lists", "Trace_TypedList")  // self, seq
+	tg := c.Trace("c13_grow", "Trace_TypedList")  // grow, sort
+	ta := c.Trace("c13_alias", "Trace_TypedList") // alias, linked
+	tr := c.Trace("c13_graph", "Trace_TypedList")   // graph: IntList, LongList, FloatList
+	tr2 := c.Trace("c13_graph2", "Trace_TypedList") // graph: DoubleList, StringList, LinkedList
 
 	// ---- gen "self": one fixed straight-line history (binding self-test) ----
 	if c.Want("self", 0) {
@@ -714,7 +719,7 @@ func Run(c *core.Ctx) error {
 		for _, k := range allKinds {
 			for _, ct := range ctors[:3] {
 				if c.Want("grow", cas) {
-					s := growHistory(c, t, "grow", cas, k, ct.name, ct.capa, n)
+					s := growHistory(c, tg, "grow", cas, k, ct.name, ct.capa, n)
 					c.Count(fmt.Sprintf("grow|%s|%s", k, ct.name), s.events > 3)
 				}
 				cas++
@@ -728,7 +733,7 @@ func Run(c *core.Ctx) error {
 		if c.Thorough() {
 			sizes = append(sizes, 7, 11, 14, 64, 150, 500, 1000)
 		}
-		ts := t
+		ts := tg
 		cas := 0
 		for round := 0; round < c.Pick(1, 3); round++ {
 			for _, n := range sizes {
@@ -782,7 +787,7 @@ func Run(c *core.Ctx) error {
 					if !(c.Thorough() || pick[ni]) || !c.Want("alias", cas) {
 						continue
 					}
-					s := aliasHistory(c, t, "alias", cas, k, shape, n)
+					s := aliasHistory(c, ta, "alias", cas, k, shape, n)
 					c.Count(fmt.Sprintf("alias|%s|%s|%d", k, shape, n), s.events > 3)
 					if cas == 0 {
 						c.Sample(map[string]interface{}{"gen": "alias", "case": cas, "type": k.String() + "List", "shape": shape, "n": n, "events": s.events, "first_calls": s.sig})
@@ -798,7 +803,7 @@ func Run(c *core.Ctx) error {
 			if !c.Want("linked", j) {
 				continue
 			}
-			s := linkedHistory(c, t, "linked", j, c.Pick(250, 900))
+			s := linkedHistory(c, ta, "linked", j, c.Pick(250, 900))
 			c.Count(fmt.Sprintf("linked|%v", s.sig), s.events > 3)
 			if j == 0 {
 				c.Sample(map[string]interface{}{"gen": "linked", "case": j, "type": "LinkedList", "events": s.events, "first_calls": s.sig})
@@ -808,7 +813,7 @@ func Run(c *core.Ctx) error {
 
 	// ---- gen "graph": (B) every transition of TLC's state graphs ----------
 	if c.WantGen("graph") {
-		if err := replayGraphs(c, t); err != nil {
+		if err := replayGraphs(c, tr, tr2); err != nil {
 			return err
 		}
 	}
